@@ -64,10 +64,10 @@ theorem Storage.commit_close (s s1 s3 : Storage) (h1t : s1.txn = s.txn + 1)
     refine ⟨_, Storage.commit_succ_succ s3 t ht, ⟨rfl.trans hs.symm, cs, hn, ?_⟩⟩
     simp [htr, hs]
 
-theorem bindRes_ok {α β : Type} {x : Res α} {s' : Storage} {a : α} (f : Storage → α → Res β)
+theorem bindRes_ok_txn {α β : Type} {x : Res α} {s' : Storage} {a : α} (f : Storage → α → Res β)
     (h : x = (s', .ok a)) : bindRes x f = f s' a := by subst h; rfl
 
-theorem bindRes_error {α β : Type} {x : Res α} {s' : Storage} {e : Err} (f : Storage → α → Res β)
+theorem bindRes_error_txn {α β : Type} {x : Res α} {s' : Storage} {e : Err} (f : Storage → α → Res β)
     (h : x = (s', .error e)) : bindRes x f = (s', .error e) := by subst h; rfl
 
 /-! ### the transactional functions -/
@@ -84,11 +84,11 @@ theorem Storage.insertBytes_sum (s : Storage) (bs : Bytes) :
           (Quiet.ite (c := fsz > bs.length)
             (Quiet.freeARegion _ (recs.newRecord fp bs.length).2.fin (fsz - RECORD_SIZE - bs.length))
             (Quiet.refl _))))
-    exact ⟨s4, (recs.newRecord fp bs.length).2.index, bindRes_ok _ hc, hok⟩
+    exact ⟨s4, (recs.newRecord fp bs.length).2.index, bindRes_ok_txn _ hc, hok⟩
   · obtain ⟨s4, hc, hok⟩ := Storage.commit_close s
       ({ s with records := (s.records.newRecord s.len bs.length).1 } : Storage).begin.1 _ rfl rfl
       ((Quiet.writeRecord _ (s.records.newRecord s.len bs.length).2).trans (Quiet.append _ bs))
-    exact ⟨s4, (s.records.newRecord s.len bs.length).2.index, bindRes_ok _ hc, hok⟩
+    exact ⟨s4, (s.records.newRecord s.len bs.length).2.index, bindRes_ok_txn _ hc, hok⟩
 
 /-- shape of the functions that look the record up first and fail only there -/
 def RecTxn (s : Storage) (i : Nat) (res : Res Unit) : Prop :=
@@ -152,14 +152,14 @@ theorem Storage.replace_sum (s : Storage) (i : Nat) (bs : Bytes) :
   unfold Storage.replace
   have hpos : s.begin.1.txn ≠ 0 := Nat.succ_ne_zero _
   rcases Storage.insertBytesAt_sum s.begin.1 i 0 bs with ⟨e, _, h1⟩ | ⟨r, s2, _, h1, ok1⟩
-  · exact Or.inr ⟨_, e, bindRes_error _ h1, Stuck.of_quiet (s1 := s.begin.1) rfl rfl (Quiet.refl _)⟩
+  · exact Or.inr ⟨_, e, bindRes_error_txn _ h1, Stuck.of_quiet (s1 := s.begin.1) rfl rfl (Quiet.refl _)⟩
   · have q1 : Quiet s.begin.1 s2 := ok1.quiet hpos
     have hpos2 : s2.txn ≠ 0 := by rw [ok1.txn]; exact hpos
     rcases Storage.resizeValue_sum s2 i bs.length with ⟨e, _, h2⟩ | ⟨r2, s3, _, h2, ok2⟩
-    · exact Or.inr ⟨_, e, (bindRes_ok _ h1).trans (bindRes_error _ h2), Stuck.of_quiet (s1 := s.begin.1) rfl rfl q1⟩
+    · exact Or.inr ⟨_, e, (bindRes_ok_txn _ h1).trans (bindRes_error_txn _ h2), Stuck.of_quiet (s1 := s.begin.1) rfl rfl q1⟩
     · have q2 : Quiet s.begin.1 s3 := q1.trans (ok2.quiet hpos2)
       obtain ⟨s4, hc, hok⟩ := Storage.commit_close s s.begin.1 s3 rfl rfl q2
-      exact Or.inl ⟨s4, (bindRes_ok _ h1).trans ((bindRes_ok _ h2).trans hc), hok⟩
+      exact Or.inl ⟨s4, (bindRes_ok_txn _ h1).trans ((bindRes_ok_txn _ h2).trans hc), hok⟩
 
 /-- `moveAt`: fails early (nothing happened), succeeds as a transaction, or fails with the depth
 stuck one too high. -/
@@ -174,16 +174,16 @@ theorem Storage.moveAt_sum (s : Storage) (i f t n : Nat) :
     refine Or.inr ?_
     have hpos : s.begin.1.txn ≠ 0 := Nat.succ_ne_zero _
     rcases Storage.insertBytesAt_sum s.begin.1 i t bytes with ⟨e, _, h1⟩ | ⟨r, s2, _, h1, ok1⟩
-    · exact Or.inr ⟨_, e, bindRes_error _ h1, Stuck.of_quiet (s1 := s.begin.1) rfl rfl (Quiet.refl _)⟩
+    · exact Or.inr ⟨_, e, bindRes_error_txn _ h1, Stuck.of_quiet (s1 := s.begin.1) rfl rfl (Quiet.refl _)⟩
     · have q1 : Quiet s.begin.1 s2 := ok1.quiet hpos
       cases hr : s2.records.record i with
       | error e =>
-        refine Or.inr ⟨s2, e, (bindRes_ok _ h1).trans ?_, Stuck.of_quiet (s1 := s.begin.1) rfl rfl q1⟩
+        refine Or.inr ⟨s2, e, (bindRes_ok_txn _ h1).trans ?_, Stuck.of_quiet (s1 := s.begin.1) rfl rfl q1⟩
         simp only [hr]
       | ok r2 =>
         obtain ⟨s4, hc, hok⟩ := Storage.commit_close s s.begin.1 _ rfl rfl
           (q1.trans (Quiet.eraseBytes s2 r2.valueStart f t n))
-        refine Or.inl ⟨s4, (bindRes_ok _ h1).trans ?_, hok⟩
+        refine Or.inl ⟨s4, (bindRes_ok_txn _ h1).trans ?_, hok⟩
         simp only [hr]
         exact hc
 
@@ -215,7 +215,7 @@ theorem Storage.replace_missing (s : Storage) (i : Nat) (bs : Bytes)
     unfold Storage.insertBytesAt
     have h' : s.begin.1.records.record i = .error .notFound := h
     rw [h']
-  exact bindRes_error _ h1
+  exact bindRes_error_txn _ h1
 
 /-! ### the step function -/
 
